@@ -25,6 +25,41 @@ Streams
   * `engine-offprotocol` a few histories that add onto a positioned node: correspondence only (the model
                         mirrors the double entry), no oracle — recorded in notes/C16_findings.md.
   * `pbc_min_dist`      symmetry / periodicity / <= direct distance evaluated on the real method.
+  * `layout`            the REAL classmethod `NonBondEngine.from_topology` on real `MetaMolecule` objects (nodes with
+                        resname, optional template, optional position) and a minimal topology (`.volumes`,
+                        `.bending`), against `EngineLayout.fromTopology` (driver op "layout"): first EXHAUSTIVELY
+                        all 8 ignore masks over the names {X, Y, Z} x 5 molecule-name sequences (repeated names,
+                        a name that is absent) x 5 coordinate variants (none / inside / ON the upper face /
+                        outside / non-finite, in a kept or in an ignored molecule), then random inputs (1-6
+                        molecules, empty molecules, shuffled non-contiguous node keys, 0 / 1 / several / all names
+                        ignored).  Outcome classes: ok | reject (IOError) | fail (any other exception: `max()` of an
+                        empty table when nothing is left, scipy's KD-tree refusing a coordinate ON the upper face
+                        that the closed check `not_exceeds_max_dimensions` let pass - model: `treeAccepts`).
+                        Observable part (oracle, spec = `EngineLayout.entries` numbered 0, 1, ...): for every node
+                        of every molecule that is not ignored, under the index the molecule has in `molecules`,
+                        `get_point` returns the supplied coordinate (undefined if none) and `get_interaction` of
+                        the node with itself returns the size of its template (else resname).  Internal part
+                        (`layout-internal`, correspondence only, only when the attributes exist with the expected
+                        types - on a refused construction the constructor arguments captured by a harness
+                        subclass are used): sorted items of `nodes_to_gndx`, `list(atypes)`, the finite rows of
+                        `positions` as exact rationals, `len(positions)`.
+  * `double-add`        histories in which `add_positions` is ALSO issued for positioned nodes, interleaved with
+                        removals and consolidation, on the lowered-threshold classes.  Outside the protocol (the
+                        program never does it): no oracle.  After every operation the position table (through
+                        `get_point`), `defined_idxs` (per tree, as LISTS in order - the model mirrors
+                        `list.append` / `list.remove`) and `gndx_to_tree` are compared with the model
+                        (`C16_getPoint_any_history`, `C16_double_add_characterised` are the theorems about exactly
+                        this).  What the real code does after a double add (found by running it): the node is
+                        twice in the index lists; a removal erases only the first occurrence in the LAST tree;
+                        if both copies were in the last tree the rebuild of that tree meets a row of `inf` and
+                        scipy raises `ValueError: data must be finite` inside `remove_positions` (positions,
+                        index lists and `gndx_to_tree` are already updated, the search tree is not); if the
+                        older copy sits in an older tree the removal succeeds, the older tree keeps a stale
+                        index (row `inf`, stored point = the first position) - force queries near it return
+                        `nan`, and the next rebuild of that tree raises the same ValueError;
+                        `concatenate_trees` repairs everything.  The model predicts the crash exactly: the
+                        operation raises iff a rebuilt model tree holds an undefined row; the stream checks this
+                        prediction and compares states up to (excluding) the first raising operation.
 
 Observable vs internal.  What decides a VIOLATION (the oracle) uses only what the property talks about: the
 public queries `get_point` (the position table = `get_point` of every node), `compute_force_point`,
@@ -44,6 +79,8 @@ Numbers: all coordinates, box lengths, sizes are dyadic (multiples of 2^-6 … 2
 Partial (trusted, named in the evidence): scipy `KDTree.sparse_distance_matrix` as exact periodic
 neighbour search (modelled by `Geometry.kdDistSq` + filter), IEEE rounding of non-dyadic inputs.
 """
+import inspect
+import itertools
 import json
 import os
 import types
@@ -645,6 +682,391 @@ def shrink(ctx, case, cls, stream, budget=24):
     return best
 
 
+# ------------------------------------------------------------------------------------------- from_topology layout
+
+LAYOUT_TYPES = ["A", "B", "C", "TA", "TB"]
+LAYOUT_VOLUMES = {"A": "1/2", "B": "3/8", "C": "5/8", "TA": "7/16", "TB": "9/16"}     # pairwise distinct sizes
+
+
+def layout_molecules(case):
+    """real MetaMolecule objects for the case (node keys, attributes and iteration order as listed)"""
+    import networkx as nx
+    from polyply.src.meta_molecule import MetaMolecule
+    molecules = []
+    for mol in case["mols"]:
+        graph = nx.Graph()
+        for i, node in enumerate(mol["nodes"]):
+            attrs = dict(resname=node["resname"], resid=i + 1)
+            if node.get("template") is not None:
+                attrs["template"] = node["template"]
+            pos = node.get("pos")
+            if pos is not None:
+                if isinstance(pos, str):
+                    bad = dict(nan=np.nan, inf=np.inf)[node.get("bad", "nan")]
+                    attrs["position"] = np.array([1.0, bad, 1.0])
+                else:
+                    attrs["position"] = np.array([float(fr(c)) for c in pos])
+            graph.add_node(node["key"], **attrs)
+        keys = [node["key"] for node in mol["nodes"]]
+        for a, b in zip(keys, keys[1:]):
+            graph.add_edge(a, b)
+        molecules.append(MetaMolecule(graph, mol_name=mol["name"]))
+    return molecules
+
+
+def layout_internal(nodes_to_gndx, atypes, positions):
+    """canonical internal view, None when the objects do not have the expected representation"""
+    try:
+        if not isinstance(nodes_to_gndx, dict):
+            return None
+        items = sorted([int(k[0]), int(k[1]), int(v)] for k, v in nodes_to_gndx.items())
+        positions = np.asarray(positions, dtype=float)
+        if positions.ndim != 2:
+            return None
+        rows = [vec_rs(row) if np.all(np.isfinite(row)) else None for row in positions]
+        return dict(map=items, atypes=[str(a) for a in atypes], rows=rows, n=int(len(positions)))
+    except Exception:  # pylint: disable=broad-except
+        return None
+
+
+def run_layout_impl(case):
+    """the real `NonBondEngine.from_topology`; returns (status, public view, internal view)"""
+    from polyply.src.nonbond_engine import NonBondEngine
+    captured = {}
+
+    class Capture(NonBondEngine):
+        """records the arguments `from_topology` hands to the constructor (harness-side interposition: the
+        constructor itself is the real one); used only when the construction is refused"""
+        def __init__(self, *args, **kwargs):
+            try:
+                bound = inspect.signature(NonBondEngine.__init__).bind(self, *args, **kwargs)
+                names = list(bound.arguments)
+                # positional order of the constructor: self, positions, nodes -> index, atom types
+                captured["positions"] = np.array(bound.arguments[names[1]], dtype=float, copy=True)
+                captured["nodes_to_gndx"] = bound.arguments[names[2]]
+                captured["atypes"] = list(bound.arguments[names[3]])
+            except Exception:  # pylint: disable=broad-except
+                captured.clear()
+            NonBondEngine.__init__(self, *args, **kwargs)
+
+    molecules = layout_molecules(case)
+    topology = types.SimpleNamespace(volumes={k: float(fr(v)) for k, v in LAYOUT_VOLUMES.items()}, bending={})
+    box = np.array([float(fr(c)) for c in case["L"]])
+    engine = None
+    try:
+        engine = Capture.from_topology(molecules, topology, box, ignore=tuple(case["ignore"]))
+        status = "ok"
+    except IOError:
+        status = "reject"
+    except Exception:  # pylint: disable=broad-except
+        status = "fail"
+    public = None
+    internal = None
+    if engine is not None:
+        public = []
+        for mol_idx, mol in enumerate(case["mols"]):
+            if mol["name"] in case["ignore"]:
+                continue
+            for node in mol["nodes"]:
+                try:                                         # public queries only inside the try-block
+                    row = np.asarray(engine.get_point(mol_idx, node["key"]), dtype=float).reshape(-1)
+                    size = engine.get_interaction(mol_idx, mol_idx, node["key"], node["key"])[0]
+                    public.append([mol_idx, node["key"], vec_rs(row) if np.all(np.isfinite(row)) else None,
+                                   rs(float(size))])
+                except Exception as err:  # pylint: disable=broad-except
+                    public.append([mol_idx, node["key"], "raised:" + type(err).__name__, None])
+        public.sort(key=lambda item: (item[0], item[1]))
+        internal = layout_internal(getattr(engine, "nodes_to_gndx", None), getattr(engine, "atypes", ()),
+                                   getattr(engine, "positions", None))
+    elif status == "fail" and captured:
+        internal = layout_internal(captured["nodes_to_gndx"], captured["atypes"], captured["positions"])
+    return status, public, internal
+
+
+def layout_request(case):
+    mols = []
+    for mol in case["mols"]:
+        nodes = []
+        for node in mol["nodes"]:
+            pos = node.get("pos")
+            nodes.append(dict(key=node["key"], resname=node["resname"], template=node.get("template"),
+                              pos="nonfinite" if isinstance(pos, str) else pos))
+        mols.append(dict(name=mol["name"], nodes=nodes))
+    return dict(op="layout", L=case["L"], ignore=case["ignore"], mols=mols)
+
+
+def judge_layout(ctx, case, impl, answer):
+    status, public, internal = impl
+    replay = dict(kind="layout", case=case)
+    if not answer.get("ok"):
+        ctx.tie_broken("correspondence", "driver:layout", str(answer)[:300], replay)
+        return
+    # -- outcome class and the observable part
+    want = answer["status"]
+    if want == "ok" and not answer["tree"]:
+        want = "fail"                       # accepted by the closed check, refused by the KD-tree (half-open)
+    m_public = None
+    if answer["status"] == "ok" and answer["tree"]:
+        m_public = [[mol, key, answer["rows"][g], LAYOUT_VOLUMES.get(answer["atypes"][g])]
+                    for mol, key, g in sorted(answer["map"])]
+    ctx.correspond("layout", dict(status=status, public=public), dict(status=want, public=m_public), replay)
+    # -- internal part
+    if answer["status"] == "ok":
+        m_internal = dict(map=sorted(answer["map"]), atypes=answer["atypes"], rows=answer["rows"], n=answer["n"])
+        if internal is None:
+            ctx.tally(layout_internal_not_observable="refused" if status != "ok" else "representation")
+        else:
+            ctx.correspond("layout-internal", internal, m_internal, replay)
+    # -- oracle: the specification (entries numbered 0, 1, ...) against the public queries
+    if status == "ok" and public is not None:
+        spec = {(e["mol"], e["key"]): e for e in answer["spec"]}
+        for mol, key, row, size in public:
+            e = spec.get((mol, key))
+            where = "node %s of molecule %d (%r) with ignore=%s" % (key, mol, case["mols"][mol]["name"], case["ignore"])
+            if e is None:
+                continue
+            if isinstance(row, str):
+                ctx.oracle_fail("layout-raised", "after from_topology, get_point / get_interaction for %s raised %s: "
+                                "a molecule that is not ignored must keep the index it has in `molecules`"
+                                % (where, row[7:]), replay)
+                break
+            if row != e["row"]:
+                ctx.oracle_fail("layout-position", "after from_topology, get_point for %s returns %s; the position "
+                                "supplied for that node is %s" % (where, row, e["row"]), replay)
+                break
+            if size != LAYOUT_VOLUMES.get(e["atype"]):
+                ctx.oracle_fail("layout-pair-size", "after from_topology, the size used for %s is %s; the size of "
+                                "its template / residue name %r is %s"
+                                % (where, size, e["atype"], LAYOUT_VOLUMES.get(e["atype"])), replay)
+                break
+    ctx.traces += 1
+
+
+def layout_node(key, resname, template=None, pos=None, bad=None):
+    node = dict(key=key, resname=resname, template=template, pos=pos)
+    if bad is not None:
+        node["bad"] = bad
+    return node
+
+
+LAYOUT_BOX = ["4", "3", "5"]
+
+
+def exhaustive_layout_cases():
+    """all ignore masks over {X, Y, Z} x name sequences x coordinate variants"""
+    sequences = [["X"], ["X", "Y"], ["X", "Y", "X"], ["X", "Y", "Z"], ["Y", "X", "X", "Z", "Y"]]
+    variants = ["none", "inside", "face", "outside", "nonfinite"]
+    special = dict(inside=["1", "5/4", "1/2"], face=["1", "3", "5"], outside=["1", "193/64", "1"], nonfinite="nonfinite")
+    cases = []
+    for seq in sequences:
+        for r in range(4):
+            for mask in itertools.combinations(["X", "Y", "Z"], r):
+                for variant in variants:
+                    mols = []
+                    for i, name in enumerate(seq):
+                        base = [3, 0, 7][i % 3]
+                        nodes = [layout_node(base + 2 * j, LAYOUT_TYPES[(i + j) % 3],
+                                             template=("TA" if (i + j) % 4 == 1 else None),
+                                             pos=(["1/2", "1/4", str(i + j)] if j == 0 and i % 2 == 0 else None))
+                                 for j in range(1 + (i + 1) % 3)]
+                        mols.append(dict(name=name, nodes=nodes))
+                    if variant != "none":
+                        # the special coordinate goes to the last node of the second molecule (or the only one)
+                        target = mols[min(1, len(mols) - 1)]["nodes"][-1]
+                        target["pos"] = special[variant]
+                    cases.append(dict(L=LAYOUT_BOX, ignore=list(mask), mols=mols, shape="exhaustive"))
+    return cases
+
+
+def gen_layout_case(rng):
+    names = ["X", "Y", "Z", "W"]
+    L = [rs(common.dyadic(rng, 2, 6, bits=2)) for _ in range(3)]
+    mols = []
+    for _ in range(rng.randint(1, 6)):
+        size = rng.choice([0, 1, 1, 2, 3, 4, 5])
+        keys = rng.sample(range(0, 30), size)
+        if rng.random() < 0.5:
+            keys.sort()
+        nodes = []
+        for key in keys:
+            pos, bad = None, None
+            roll = rng.random()
+            if roll < 0.35:
+                pos = [rs(c) for c in rand_point(rng, L)]
+            elif roll < 0.43:
+                pos = [rs(c) for c in rand_point(rng, L)]
+                axis = rng.randrange(3)
+                pos[axis] = L[axis] if rng.random() < 0.7 else "0"          # exactly on a face
+            elif roll < 0.47:
+                pos = [rs(c) for c in rand_point(rng, L)]
+                axis = rng.randrange(3)
+                pos[axis] = rs(fr(L[axis]) + Fraction(1, 64)) if rng.random() < 0.5 else "-1/64"
+            elif roll < 0.50:
+                pos, bad = "nonfinite", rng.choice(["nan", "inf"])
+            nodes.append(layout_node(key, rng.choice(LAYOUT_TYPES[:3]),
+                                     template=(rng.choice(LAYOUT_TYPES[3:]) if rng.random() < 0.3 else None),
+                                     pos=pos, bad=bad))
+        mols.append(dict(name=rng.choice(names[:rng.randint(1, 4)]), nodes=nodes))
+    present = sorted({m["name"] for m in mols})
+    roll = rng.random()
+    if roll < 0.3:
+        ignore = []
+    elif roll < 0.55:
+        ignore = [rng.choice(present)]
+    elif roll < 0.8:
+        ignore = [n for n in names if rng.random() < 0.5]
+    elif roll < 0.9:
+        ignore = list(present)
+    else:
+        ignore = ["NOT_THERE"] + [n for n in present if rng.random() < 0.3]
+    return dict(L=L, ignore=ignore, mols=mols, shape="random")
+
+
+def run_layout_batch(ctx, cases):
+    if not cases:
+        return
+    impls = [run_layout_impl(case) for case in cases]
+    answers = ctx.driver.ask([layout_request(case) for case in cases])
+    for case, impl, answer in zip(cases, impls, answers):
+        judge_layout(ctx, case, impl, answer)
+        ignored = [m["name"] in case["ignore"] for m in case["mols"]]
+        kept_after_ignored = any(ig and not all(ignored[i + 1:]) for i, ig in enumerate(ignored))
+        key = None
+        if impl[0] == "ok" and kept_after_ignored:
+            key = "layout:" + str(hash(json.dumps(case, sort_keys=True)))
+        ctx.case(key, sample=dict(stream="layout", ignore=case["ignore"], names=[m["name"] for m in case["mols"]],
+                                  status=impl[0]) if key else None,
+                 stream="layout", layout_shape=case.get("shape", "corpus"), layout_status=impl[0],
+                 layout_ignored=("none" if not any(ignored) else "all" if all(ignored) else "some"))
+
+
+# ------------------------------------------------------------------------------------------- double add
+
+def gen_double_add(rng, static, nops, T):
+    """adds (also onto positioned nodes), removals, consolidation; a snapshot after every operation"""
+    case = dict(static)
+    L, n, nodes = case["L"], case["n"], case["nodes"]
+    pos = {}
+    init = []
+    for g in range(n):
+        if rng.random() < 0.3:
+            p = rand_point(rng, L)
+            init.append([g, [rs(c) for c in p]])
+            pos[g] = p
+    case["init"], case["T"] = init, T
+    by_mol = {}
+    for g, (mol, _) in enumerate(nodes):
+        by_mol.setdefault(mol, []).append(g)
+    ops = []
+    while len(ops) < 2 * nops:
+        roll = rng.random()
+        if roll < 0.62 or not pos:
+            positioned = sorted(pos)
+            if positioned and rng.random() < 0.45:
+                g = rng.choice(positioned)
+            else:
+                g = rng.randrange(n)
+            p = rand_point(rng, L)
+            ops.append(dict(k="add", g=g, p=[rs(c) for c in p], start=rng.random() < 0.4))
+            pos[g] = p
+        elif roll < 0.92:
+            mol = nodes[rng.randrange(n)][0]
+            members = by_mol[mol]
+            gs = [rng.choice(members) for _ in range(rng.randint(1, min(3, len(members))))]
+            ops.append(dict(k="remove", mol=mol, gs=gs))
+            for g in gs:
+                pos.pop(g, None)
+        else:
+            ops.append(dict(k="concat"))
+        ops.append(dict(k="snap"))
+    case["ops"] = ops
+    return case
+
+
+def double_add_state(engine, nodes):
+    """position table through get_point; index lists IN ORDER and gndx_to_tree when they exist as list / dict"""
+    state = dict(positions=public_positions(engine, nodes))
+    defined_idxs = getattr(engine, "defined_idxs", None)
+    if isinstance(defined_idxs, list) and all(isinstance(d, list) for d in defined_idxs):
+        state["defined"] = [[int(i) for i in idxs] for idxs in defined_idxs]
+    gndx_to_tree = getattr(engine, "gndx_to_tree", None)
+    if isinstance(gndx_to_tree, dict):
+        state["g2t"] = sorted([int(g), int(t)] for g, t in gndx_to_tree.items())
+    return state
+
+
+def run_double_add_impl(case, cls):
+    engine = make_engine(case, cls)
+    nodes = case["nodes"]
+    states, raised = [], None
+    for i, op in enumerate(case["ops"]):
+        k = op["k"]
+        try:
+            if k == "add":
+                mol, key = nodes[op["g"]]
+                engine.add_positions(np.array([float(fr(c)) for c in op["p"]]), mol, key, start=op["start"])
+            elif k == "remove":
+                engine.remove_positions(op["mol"], [nodes[g][1] for g in op["gs"]])
+            elif k == "concat":
+                engine.concatenate_trees()
+        except Exception as err:  # pylint: disable=broad-except
+            raised = dict(op_index=i, kind=k, error=type(err).__name__)
+            break
+        if k == "snap":
+            states.append(double_add_state(engine, nodes))
+    return states, raised
+
+
+def judge_double_add(ctx, case, impl, answer):
+    states, raised = impl
+    replay = dict(kind="double-add", case=case)
+    if not answer.get("ok"):
+        ctx.tie_broken("correspondence", "driver:double-add", str(answer)[:300], replay)
+        return
+    snaps = [o["model"] for o in answer["out"]]
+    # the model's prediction of the first raising operation: a search tree rebuilt with an undefined row
+    predicted = next((j for j, snap in enumerate(snaps) if any(p is None for tree in snap["trees"] for p in tree)), None)
+    got = None
+    if raised is not None:
+        got = sum(1 for op in case["ops"][:raised["op_index"]] if op["k"] == "snap")      # index of the snapshot that is missing
+    upto = len(states)
+    m_states = []
+    for snap, state in zip(snaps[:upto], states):
+        m = dict(positions=[[g, list(p)] for g, p in snap["positions"]])
+        if "defined" in state:
+            m["defined"] = snap["defined"]
+        if "g2t" in state:
+            m["g2t"] = sorted([g, t] for g, t in snap["g2t"])
+        m_states.append(m)
+    agree = states == m_states and got == predicted
+    first = next((j for j, (a, b) in enumerate(zip(states, m_states)) if a != b), None)
+    ctx.correspond("double-add",
+                   "agree" if agree else summarize(dict(first_raise=got, diff_at=first, state=states[first] if first is not None else None)),
+                   "agree" if agree else summarize(dict(first_raise=predicted, diff_at=first, state=m_states[first] if first is not None else None)),
+                   replay)
+    if states and ("defined" not in states[0] or "g2t" not in states[0]):
+        ctx.tally(internal_state_not_observable="double-add")
+    doubled = any(sum(len(d) for d in snap["defined"]) != len({g for d in snap["defined"] for g in d})
+                  for snap in snaps[:max(upto, 1)])
+    ctx.traces += 1
+    key = None
+    if doubled:
+        key = "double-add:" + str(hash(json.dumps(case["ops"], sort_keys=True)))
+    ctx.case(key, sample=dict(stream="double-add", n=case["n"], T=case["T"], ops=case["ops"][:6], raised=raised) if key else None,
+             stream="double-add", double_add_end=("raised:%s" % raised["kind"] if raised else "completed"),
+             double_add_states_compared=("<10" if upto < 10 else "10-29" if upto < 30 else ">=30"),
+             double_add_doubled=bool(doubled))
+
+
+def run_double_add_batch(ctx, cases, classes):
+    if not cases:
+        return
+    impls = [run_double_add_impl(case, class_for(case, classes)) for case in cases]
+    answers = ctx.driver.ask([request_of(case) for case in cases])
+    for case, impl, answer in zip(cases, impls, answers):
+        judge_double_add(ctx, case, impl, answer)
+
+
 # ------------------------------------------------------------------------------------------- main
 
 def class_for(case, classes):
@@ -703,7 +1125,7 @@ def run_batch(ctx, cases, classes, stream, oracle=True):
                     break
 
 
-def corpus_cases():
+def corpus_cases(kind="history"):
     path = os.path.join(common.VERIF, "corpus", "C16")
     out = []
     if os.path.isdir(path):
@@ -711,7 +1133,7 @@ def corpus_cases():
             if name.endswith(".json"):
                 data = json.load(open(os.path.join(path, name)))
                 inp = data.get("input", data)
-                if inp.get("kind") == "history":
+                if inp.get("kind") == kind:
                     out.append(inp["case"])
     return out
 
@@ -746,6 +1168,9 @@ def run(ctx):
         "IEEE double arithmetic: exact on the dyadic inputs generated; sqrt/pow of the force within 1e-9 relative",
         "lowered-threshold stream: the literal 5000 of add_positions replaced in a copy of its code object "
         "inside the harness process (co_consts), everything else is the real byte code",
+        "scipy.spatial.KDTree(boxsize=L) raising ValueError for a row outside the half-open box [0, L) or not "
+        "finite (modelled: EngineLayout.treeAccepts in the layout stream; 'a rebuilt tree holds an undefined row' "
+        "in the double-add stream)",
     ]
     ctx.assumptions += [
         "partial: neighbour search of scipy's KD-tree and IEEE rounding are trusted, not verified",
@@ -754,6 +1179,13 @@ def run(ctx):
         "notes/C16_findings.md)",
         "C16_force_gradient is proved over the reals for the 12-6 formula of the model; the tie of the formula "
         "to _lennard_jones_force is the force correspondence (1e-9)",
+    ]
+    ctx.assumptions += [
+        "layout stream: from_topology is driven with real MetaMolecule objects and a minimal topology object "
+        "(volumes, bending); the interaction table / cut-off it also builds are not modelled beyond 'empty table "
+        "-> exception' and the self term read through get_interaction",
+        "double-add stream: outside the quantifier of C16 (the program never adds onto a positioned node): "
+        "correspondence only, states compared up to the first raising operation",
     ]
     rng = ctx.rng
     classes = lowered_classes()
@@ -796,6 +1228,22 @@ def run(ctx):
 
     min_image_laws(ctx, rng, ctx.budget(300, 20000))
 
+    # the index layout built by from_topology: corpus, exhaustive small shapes, then random
+    run_layout_batch(ctx, [dict(c, shape="corpus") for c in corpus_cases("layout")])
+    exhaustive = exhaustive_layout_cases()
+    run_layout_batch(ctx, exhaustive)
+    ctx.tally(layout_exhaustive="all 8 ignore masks over {X,Y,Z} x 5 name sequences x 5 coordinate variants = %d cases"
+              % len(exhaustive))
+    run_layout_batch(ctx, [gen_layout_case(rng) for _ in range(ctx.budget(150, 4000))])
+
+    # add_positions also onto positioned nodes (outside the protocol): correspondence only
+    doubles = [dict(c) for c in corpus_cases("double-add")]
+    for i in range(ctx.budget(10, 250)):
+        static = gen_static(rng)
+        T = rng.choice([0, 1, 2, 4, 8]) if classes else None
+        doubles.append(gen_double_add(rng, static, rng.randint(15, 45), T))
+    run_double_add_batch(ctx, doubles, classes)
+
 
 def replay(ctx, data):
     inp = data.get("input") or {}
@@ -807,8 +1255,16 @@ def replay(ctx, data):
             print("  ", item["name"], "-", item["detail"][:300])
             if item.get("input") and "ops" in item["input"]:
                 cases.append(item["input"])
+            elif item.get("input") and item["input"].get("kind") == "layout":
+                run_layout_batch(ctx, [item["input"]["case"]])
+            elif item.get("input") and item["input"].get("kind") == "double-add":
+                run_double_add_batch(ctx, [item["input"]["case"]], classes)
         ctx.extra["shrink"] = False
         run_batch(ctx, cases, classes, "engine")
+    elif inp.get("kind") == "layout":
+        run_layout_batch(ctx, [inp["case"]])
+    elif inp.get("kind") == "double-add":
+        run_double_add_batch(ctx, [inp["case"]], classes)
     elif inp.get("kind") == "min-image":
         import random
         # re-evaluate the three laws on the recorded points
